@@ -49,6 +49,37 @@ def lattice(rep):
     return pts
 
 
+def scan(rep, sc, lf, tier):
+    out = os.path.join(sc, "scan.json")
+    r = common.run_worker(os.path.join(HERE, "w_c05scan.py"), [out, str(common.seed()), tier, lf], timeout=3000)
+    if r.returncode != 0:
+        if r.returncode < 0:
+            rep.violation("crash:scan", "real code crashed (signal %d) in the save-point scan of the adaptive schemes" % -r.returncode, {"stderr": r.stderr[-1500:]})
+            return
+        raise MachineryError("w_c05scan failed: %s" % r.stderr[-2000:])
+    res = json.load(open(out))
+    n = 0
+    for e in res:
+        n += e["savepoints"]
+        # a class of its own: with a tree in use the particle ORDER of a restored run differs from the uninterrupted one.  The tree update moves a
+        # particle that left its cell (or waits for removal) to the end of the array; the restored simulation starts from a freshly built tree in
+        # which nobody has left a cell.  Same particles, same bits per particle, different indices.
+        usetree = e["cfg"].get("coll") in ("tree", "linetree") or e["cfg"].get("grav") == "tree"
+        cls = [b for b in e["bad"] if (b.get("order_only") or b.get("same_particles_to_rounding")) and usetree]
+        if cls:
+            rep.violation("scan:tree-order:%s" % e["cfg"].get("coll"),
+                          "run %s with a tree, saved after step %d (route %s): the restored run holds the same particles in a different order than the uninterrupted run (bit for bit the same without gravity, to rounding with it: the order of summation changes)"
+                          % (json.dumps(e["cfg"]), cls[0]["k"] + 1, cls[0]["route"]), e)
+        rest = [b for b in e["bad"] if b not in cls]
+        if rest:
+            b = rest[0]
+            rep.violation("scan:%s:%s" % (e["cfg"]["integ"], b.get("route")),
+                          "adaptive run %s: %d of %d save points do not continue bit for bit like the uninterrupted run (first: saved after step %d, route %s, differs %s)"
+                          % (json.dumps(e["cfg"]), len(rest), e["savepoints"], b["k"] + 1, b.get("route"), ("after %d more steps" % b["after"]) if "after" in b else b.get("what")), e)
+    rep.add(evaluations=n, traces_validated_against_impl=len(res))
+    rep.cov["savepoint_scan"] = {"configurations": len(res), "save_points": n}
+
+
 def run(tier, rep):
     common.build()
     sc = common.scratch("c05")
@@ -122,6 +153,8 @@ def run(tier, rep):
         key = "point:%s:%s:%s" % (pt["integ"], tr["route"], why.split(":")[0])
         rep.violation(key, "lattice point %s, route %s, save point %s: %s (event %d of %d)" % (json.dumps(pt), tr["route"], tr["savept"], why, k, len(tr["events"])),
                       {"point": pt, "route": tr["route"], "savept": tr["savept"], "why": why, "event": k})
+    # every step of an adaptive run is a save point (states right behind rejected steps included)
+    scan(rep, sc, lf, tier)
     # persistence audit over the descriptor table (shared with C17)
     p_c17.audit(rep, sc, lf)
     # the default route Simulation(filename) / sa[-1] on an archive longer than the reader's initial index (1024 snapshots)
